@@ -39,6 +39,7 @@ type streamCase struct {
 	FLT  refExp   `json:"eflt"`
 	End  string   `json:"end"` // machine state at the end of the stream: idle|open|pending|err
 	Seed int64    `json:"seed"`
+	DS   decSteps `json:"dsteps"`
 	M    int      `json:"m"`
 	Full bool     `json:"full"` // enumerate all chunkings (else sample)
 }
@@ -349,6 +350,23 @@ func streamHandle(in []byte) []byte {
 					Input: base64.StdEncoding.EncodeToString(b), Text: printable(b), Exp: "a value of the specification is rejected by encoding/json.Unmarshal"})
 				continue
 			}
+			if endk == "EOF" && c.DS.Has {
+				// the positional decoder over the same bytes (spec/DecObj.tla)
+				res.Evals++
+				if kind, det := drivePositional(b, seg, c.DS, want); kind == "oracle" {
+					res.Oracle++
+					if len(res.Bad) < 3 {
+						res.Bad = append(res.Bad, streamBad{ID: c.ID, Cfg: "encoding/json", Kind: "oracle_disagreement", EndK: endk, End: c.End, S: c.S,
+							Input: base64.StdEncoding.EncodeToString(b), Text: printable(b), Exp: det})
+					}
+				} else if kind != "" {
+					res.Kinds[kind]++
+					if len(res.Bad) < 6 {
+						res.Bad = append(res.Bad, streamBad{ID: c.ID, Cfg: "decoder.Decoder", Kind: kind, EndK: endk, End: c.End, Cut: "none", S: c.S,
+							Input: base64.StdEncoding.EncodeToString(b), Text: printable(b), Exp: fmtObs(want, strings.Join(exp.Term, "|")), Got: det})
+					}
+				}
+			}
 			var opt interface{}
 			hasOpt := false
 			if len(exp.Opt) == 2 {
@@ -478,6 +496,7 @@ func streamMain(args []string) int {
 			}
 			c.EOF = toRefExp(st["eeof"])
 			c.FLT = toRefExp(st["eflt"])
+			c.DS = toDecSteps(st["dsteps"])
 			c.End = endClass(tlaval.Rec(st["r"]))
 			b, _ := json.Marshal(c)
 			cases <- b
